@@ -196,12 +196,7 @@ theorem LIdx_pos {o : Oracle} {acc e : Expr} {ds : Str} {r r' : List Tok} (hn : 
 
 def NoLP (r : List Tok) : Prop := ∀ r', r ≠ lp :: r'
 
-/-- literal tokens (everything but keywords, identifiers, punctuation and INDEX) -/
-def IsLitTok : Tok → Prop
-  | .int _ | .hex _ | .oct _ | .bin _ | .float _ | .dec _ | .str _ => True
-  | _ => False
-
-theorem PTerm_lit {o : Oracle} {t : Tok} {v : Value} {r : List Tok} (ht : IsLitTok t) (h : Lit.ofTok o t = .ok v []) :
+theorem PTerm_lit {o : Oracle} {t : Tok} {v : Value} {r x : List Tok} (ht : IsLitTok t) (h : Lit.ofTok o t = .ok v x) :
     PTerm o (t :: r) (.lit v) r := by
   refine ⟨1, fun f hf => ?_⟩
   obtain ⟨g, rfl, _⟩ := fuel_succ hf
